@@ -172,6 +172,53 @@ theorem torn_counterexample_sector :
     Witness.mix2 ≠ Witness.new2 ∧ Witness.mix2 ≠ Witness.old2 := by
   refine ⟨⟨2, 0, fun i => i == 0, by decide, rfl⟩, by decide +kernel, by decide +kernel, by decide +kernel, by decide +kernel⟩
 
+/-- **Scope of the finding.**  It is not a property of one unlucky pair: for *every* payload `d`
+of at least 6 bytes and *every* tear position `1 ≤ j ≤ |d| − 5` there is an earlier value `o` of
+the same length (`o = d ⊕ (01 00… ‖ 01 96 30 07 77 00…)`) such that, when the process stops `j`
+bytes into the data `write()` of saving `d` over the saved `o` (every sector on disk), the file
+loads — before the new deadline — as `d[0..j) ++ o[j..)`, which is neither `d` nor `o`.  Proof:
+CRC-32 is affine over GF(2) (`Lemmas.crcRaw_xor`) and the difference is a multiple of the
+generator polynomial behind leading zeros (`Lemmas.crcRaw_delta`). -/
+theorem torn_mixture_for_every_payload (S : Nat) (now t0 t : Int) (d : Bytes) (j : Nat)
+    (hj : 1 ≤ j) (hlen : j + 5 ≤ d.length) (hd : d.length < 2^31) (ht : InI64 t) (hnow : now ≤ t) :
+    ∃ o : Bytes, o.length = d.length ∧
+      Crash S (saveComplete [] t0 o) t d (crashState S (saveComplete [] t0 o) t d 1 j (fun _ => true)) ∧
+      readFromFile now (crashState S (saveComplete [] t0 o) t d 1 j (fun _ => true)) = some (t, d.take j ++ o.drop j) ∧
+      d.take j ++ o.drop j ≠ d ∧ d.take j ++ o.drop j ≠ o := by
+  have hmix := mix_eq d j hj hlen
+  have holen := advOld_length d j hj hlen
+  refine ⟨advOld d j, holen, ⟨1, j, _, by simp, rfl⟩, ?_, ?_, ?_⟩
+  · have hne : d ≠ [] := by intro e; rw [e] at hlen; simp at hlen
+    have htl : (d.take j).length = j := by simp; omega
+    have hL : logical (saveComplete [] t0 (advOld d j)) (saveWrites t d) 1 j =
+        encodeHeader t d ++ ((d.take j ++ (advOld d j).drop j) ++ []) := by
+      rw [logical_one _ t d j hne, saveComplete_eq, htl]
+      have e16 : 16 + j = (encodeHeader t0 (advOld d j)).length + j := by rw [encodeHeader_length]
+      rw [e16, List.drop_append]
+      simp
+    have hlenL : (saveComplete [] t0 (advOld d j)).length ≤
+        (encodeHeader t d ++ ((d.take j ++ (advOld d j).drop j) ++ [])).length := by
+      rw [saveComplete_eq]
+      simp [encodeHeader_length, holen]
+      omega
+    unfold crashState
+    rw [hL, sectorMix_all S _ _ hlenL, hmix]
+    have hcrc := mix_crc d j hlen
+    have hl : (xorB d (mixDelta d.length j)).length = d.length := by
+      apply xorB_length; simp [mixDelta, tailDelta, genMultiple]; omega
+    rw [encodeHeader_congr t d _ hl.symm hcrc.symm,
+      readFromFile_record now t _ [] ht (by rw [hl]; omega)]
+    have : Gen.expired t now = false := by simp [Gen.expired]; omega
+    simp [this]
+  · rw [hmix]; exact mix_ne_new d j hlen
+  · rw [hmix]; exact mix_ne_old d j hj hlen
+
+/-- the hypotheses of `torn_mixture_for_every_payload` are satisfiable (smallest case) -/
+example : ∃ o : Bytes, o.length = 6 ∧ [104, 101].take 1 ++ o.drop 1 ≠ o :=
+  let ⟨o, h1, _, _, _, h5⟩ := torn_mixture_for_every_payload 512 1000 2000 3000 [104, 101, 108, 108, 111, 33] 1
+    (by decide) (by decide) (by decide) (by decide) (by decide)
+  ⟨o, h1, by simpa using h5⟩
+
 /-- Crash states (and complete saves) are again files a later save can start from, so the
 theorems above compose along histories of saves and crashes. -/
 theorem crash_wellformed (S : Nat) (old : Bytes) (t : Int) (d c : Bytes) (hS : 16 ≤ S)
